@@ -472,7 +472,7 @@ def run_instance(kind, seed):
         Mv, Ev, iv = expected_pullback(kind, seed)
         if not close(Mv, Ev, 1e-9, atol=1e-12 * (1 + np.max(np.abs(Mv)))):
             fails.append(("expected_pullback", {"metric": Mv.tolist(), "E[JtJ]": np.asarray(Ev).tolist(), "i": iv,
-                                                "ratio_ii": float(Ev[-1, -1] / Mv[-1, -1])}))
+                                                "ratio_ii": float(Ev[0, 0] / Mv[0, 0])}))   # coordinates are ordered by key: 'i' first
     return fails
 
 
